@@ -85,26 +85,28 @@ theorem C15_strict_plumbing (s : Bool) :
 
 /-! ### attribute level: the decision table (`d = true`: the value is `$`; `d = false`: no value before the delimiter) -/
 
-theorem C15_attr_optional (strict d : Bool) (k : Kind) :
-    attrRead strict ⟨k, true, false⟩ (.missing d) = (.null, .null) := by
+theorem C15_attr_optional (strict d r : Bool) (k : Kind) :
+    attrRead strict ⟨k, true, false, r⟩ (.missing d) = (.null, .null) := by
   cases strict <;> rfl
 
-theorem C15_attr_strict_required (d : Bool) (k : Kind) :
-    attrRead true ⟨k, false, false⟩ (.missing d) = (.incomplete, .null) := by
+theorem C15_attr_strict_required (d r : Bool) (k : Kind) :
+    attrRead true ⟨k, false, false, r⟩ (.missing d) = (.incomplete, .null) := by
   rfl
 
-theorem C15_attr_lenient_substitutes (k : Kind) (h : substitutable k = true) :
-    attrRead false ⟨k, false, false⟩ (.missing true) = (.usermsg, .tok (substValue k)) := by
-  cases k <;> first | rfl | (simp [substitutable] at h)
+/-- `k` is the UNDERLYING kind: the substitution reaches an INTEGER/REAL/NUMBER/STRING behind any chain of defined types
+    (`r`: the attribute's own type is a defined type on a defined type) -/
+theorem C15_attr_lenient_substitutes (k : Kind) (r : Bool) (h : substitutable k = true) :
+    attrRead false ⟨k, false, false, r⟩ (.missing true) = (.usermsg, .tok (substValue k)) := by
+  cases r <;> cases k <;> first | rfl | (simp [substitutable] at h)
 
-theorem C15_attr_lenient_other (k : Kind) (h : substitutable k = false) :
-    attrRead false ⟨k, false, false⟩ (.missing true) = (.incomplete, .null) := by
-  cases k <;> first | rfl | (simp [substitutable] at h)
+theorem C15_attr_lenient_other (k : Kind) (r : Bool) (h : substitutable k = false) :
+    attrRead false ⟨k, false, false, r⟩ (.missing true) = (.incomplete, .null) := by
+  cases r <;> cases k <;> first | rfl | (simp [substitutable] at h)
 
 /-- a required value that is not there at all is a malformed parameter list: incomplete in BOTH modes, every kind -/
-theorem C15_attr_absent_required (strict : Bool) (k : Kind) :
-    attrRead strict ⟨k, false, false⟩ (.missing false) = (.incomplete, .null) := by
-  cases strict <;> cases k <;> rfl
+theorem C15_attr_absent_required (strict r : Bool) (k : Kind) :
+    attrRead strict ⟨k, false, false, r⟩ (.missing false) = (.incomplete, .null) := by
+  cases strict <;> cases r <;> cases k <;> rfl
 
 /-! ### instance level -/
 
@@ -266,22 +268,22 @@ theorem C15_conforming_clean (s : Bool) (is : List InstIn) (h : ∀ x ∈ is, Cl
 
 /-- OPTIONAL attribute unset — `$` or no value at all —, ANY position of ANY instance shape (any part of a complex
     instance included), either mode: the file reads with severity NULL, p21read exits 0, the instance is complete. -/
-theorem C15_optional_ok (s d : Bool) (k : Kind) (i : InstIn) (pre post : List InstIn)
+theorem C15_optional_ok (s d r : Bool) (k : Kind) (i : InstIn) (pre post : List InstIn)
     (hpre : ∀ x ∈ pre, CleanInst s x) (hpost : ∀ x ∈ post, CleanInst s x)
-    (h : OneMissing s ⟨k, true, false⟩ d i) :
+    (h : OneMissing s ⟨k, true, false, r⟩ d i) :
     readFile s (pre ++ i :: post) = .null ∧ accepted (readFile s (pre ++ i :: post)) = true ∧
     nodeState (readInst s i) = .complete := by
   have hs : (readInst s i).sev = .null := by
     cases h with
     | simple h₁ h₂ =>
-      have := instRead_sev_at (C15_strict_plumbing s).1 ⟨k, true, false⟩ (Tok.missing d) h₁ h₂
+      have := instRead_sev_at (C15_strict_plumbing s).1 ⟨k, true, false, r⟩ (Tok.missing d) h₁ h₂
       rw [C15_attr_optional] at this; exact this
     | @complex ps₁ ps₂ as₁ ts₁ as₂ ts₂ hp₁ _ h₁ h₂ =>
       simp only [readInst]
       cases ps₁ with
       | nil =>
         rw [List.nil_append, complexRead_sev_head]
-        have := instRead_sev_at (C15_strict_plumbing s).2.1 ⟨k, true, false⟩ (Tok.missing d) h₁ h₂
+        have := instRead_sev_at (C15_strict_plumbing s).2.1 ⟨k, true, false, r⟩ (Tok.missing d) h₁ h₂
         rw [C15_attr_optional] at this; exact this
       | cons p ps =>
         rw [List.cons_append, complexRead_sev_head]
@@ -298,18 +300,18 @@ theorem C15_optional_ok (s d : Bool) (k : Kind) (i : InstIn) (pre post : List In
 /-- required attribute unset (`$` or absent), STRICT mode, any kind: the instance is incomplete and the read fails.
     `_partial`: internally mapped instances (every own/inherited position) and the first part of a complex instance;
     excluded: the other parts of a complex instance (see `C15_strict_required_complex_nonhead_witness`). -/
-theorem C15_strict_required_incomplete_partial (d : Bool) (k : Kind) (i : InstIn) (pre post : List InstIn)
+theorem C15_strict_required_incomplete_partial (d r : Bool) (k : Kind) (i : InstIn) (pre post : List InstIn)
     (hpre : ∀ x ∈ pre, CleanInst true x) (hpost : ∀ x ∈ post, CleanInst true x)
-    (h : OneMissingSH true ⟨k, false, false⟩ d i) :
+    (h : OneMissingSH true ⟨k, false, false, r⟩ d i) :
     p21readExit (readFile true (pre ++ i :: post)) = 1 ∧ accepted (readFile true (pre ++ i :: post)) = false ∧
     nodeState (readInst true i) = .incomplete := by
   rw [readFile_one i pre post hpre hpost, complex_of_SH_cases h, C15_attr_strict_required]
   cases h <;> exact ⟨rfl, rfl, rfl⟩
 
 /-- … for internally mapped instances the file severity is exactly SEVERITY_INCOMPLETE -/
-theorem C15_strict_required_severity_simple (d : Bool) (k : Kind) (i : InstIn) (pre post : List InstIn)
+theorem C15_strict_required_severity_simple (d r : Bool) (k : Kind) (i : InstIn) (pre post : List InstIn)
     (hpre : ∀ x ∈ pre, CleanInst true x) (hpost : ∀ x ∈ post, CleanInst true x)
-    (h : OneMissingSimple true ⟨k, false, false⟩ d i) : readFile true (pre ++ i :: post) = .incomplete := by
+    (h : OneMissingSimple true ⟨k, false, false, r⟩ d i) : readFile true (pre ++ i :: post) = .incomplete := by
   cases h with
   | simple h₁ h₂ =>
     rw [readFile_one _ pre post hpre hpost, complex_of_SH_cases (.simple h₁ h₂), C15_attr_strict_required]; rfl
@@ -317,51 +319,51 @@ theorem C15_strict_required_severity_simple (d : Bool) (k : Kind) (i : InstIn) (
 /-- required INTEGER / REAL / NUMBER / STRING given as `$`, LENIENT mode: user message, file accepted (exit 0), instance
     complete.  `_partial`: internally mapped instances (every own/inherited position); excluded: attributes inside
     complex instances (`C15_lenient_substitutes_complex_head_witness`, `…_nonhead_witness`). -/
-theorem C15_lenient_substitutes_partial (k : Kind) (hk : substitutable k = true) (i : InstIn)
+theorem C15_lenient_substitutes_partial (k : Kind) (r : Bool) (hk : substitutable k = true) (i : InstIn)
     (pre post : List InstIn)
     (hpre : ∀ x ∈ pre, CleanInst false x) (hpost : ∀ x ∈ post, CleanInst false x)
-    (h : OneMissingSimple false ⟨k, false, false⟩ true i) :
+    (h : OneMissingSimple false ⟨k, false, false, r⟩ true i) :
     readFile false (pre ++ i :: post) = .usermsg ∧ accepted (readFile false (pre ++ i :: post)) = true ∧
     nodeState (readInst false i) = .complete := by
   cases h with
   | simple h₁ h₂ =>
-    rw [readFile_one _ pre post hpre hpost, complex_of_SH_cases (.simple h₁ h₂), C15_attr_lenient_substitutes k hk]
+    rw [readFile_one _ pre post hpre hpost, complex_of_SH_cases (.simple h₁ h₂), C15_attr_lenient_substitutes k r hk]
     exact ⟨rfl, rfl, rfl⟩
 
 /-- … and the value stored at that position (the one written back) is 0 / 0.0 / 0 / '' — internally mapped instance -/
-theorem C15_lenient_value_simple (k : Kind) (hk : substitutable k = true)
+theorem C15_lenient_value_simple (k : Kind) (r : Bool) (hk : substitutable k = true)
     {as₁ ts₁} (as₂ ts₂) (h₁ : CleanL false as₁ ts₁) :
-    ((readVals false (.simple (as₁ ++ ⟨k, false, false⟩ :: as₂) (ts₁ ++ Tok.missing true :: ts₂)))[0]?.bind
+    ((readVals false (.simple (as₁ ++ ⟨k, false, false, r⟩ :: as₂) (ts₁ ++ Tok.missing true :: ts₂)))[0]?.bind
       (·[as₁.length]?)) = some (.tok (substValue k)) := by
   simp only [readVals, List.getElem?_cons_zero, Option.bind_some]
-  rw [instRead_val_at (C15_strict_plumbing false).1 as₂ ts₂ _ _ h₁, C15_attr_lenient_substitutes k hk]
+  rw [instRead_val_at (C15_strict_plumbing false).1 as₂ ts₂ _ _ h₁, C15_attr_lenient_substitutes k r hk]
 
 /-- … the substitution itself also happens inside every part of a complex instance (the flags reach the parts) -/
-theorem C15_lenient_value_complex (k : Kind) (hk : substitutable k = true)
+theorem C15_lenient_value_complex (k : Kind) (r : Bool) (hk : substitutable k = true)
     (ps₁ ps₂ : List (List AttrD × List Tok)) {as₁ ts₁} (as₂ ts₂) (h₁ : CleanL false as₁ ts₁) :
-    ((readVals false (.complex (ps₁ ++ (as₁ ++ ⟨k, false, false⟩ :: as₂, ts₁ ++ Tok.missing true :: ts₂) :: ps₂)))[ps₁.length]?.bind
+    ((readVals false (.complex (ps₁ ++ (as₁ ++ ⟨k, false, false, r⟩ :: as₂, ts₁ ++ Tok.missing true :: ts₂) :: ps₂)))[ps₁.length]?.bind
       (·[as₁.length]?)) = some (.tok (substValue k)) := by
   simp only [readVals, complexRead, List.map_append, List.map_cons, List.map_map]
   rw [List.getElem?_append_right (by simp)]
   simp only [List.length_map, Nat.sub_self, List.getElem?_cons_zero, Option.bind_some]
-  rw [instRead_val_at (C15_strict_plumbing false).2.1 as₂ ts₂ _ _ h₁, C15_attr_lenient_substitutes k hk]
+  rw [instRead_val_at (C15_strict_plumbing false).2.1 as₂ ts₂ _ _ h₁, C15_attr_lenient_substitutes k r hk]
 
 /-- required attribute of any other kind given as `$`, LENIENT mode: incomplete, read fails — as in strict mode.
     `_partial`: same shapes as `C15_strict_required_incomplete_partial`. -/
-theorem C15_lenient_other_incomplete_partial (k : Kind) (hk : substitutable k = false) (i : InstIn)
+theorem C15_lenient_other_incomplete_partial (k : Kind) (r : Bool) (hk : substitutable k = false) (i : InstIn)
     (pre post : List InstIn)
     (hpre : ∀ x ∈ pre, CleanInst false x) (hpost : ∀ x ∈ post, CleanInst false x)
-    (h : OneMissingSH false ⟨k, false, false⟩ true i) :
+    (h : OneMissingSH false ⟨k, false, false, r⟩ true i) :
     p21readExit (readFile false (pre ++ i :: post)) = 1 ∧ accepted (readFile false (pre ++ i :: post)) = false ∧
     nodeState (readInst false i) = .incomplete := by
-  rw [readFile_one i pre post hpre hpost, complex_of_SH_cases h, C15_attr_lenient_other k hk]
+  rw [readFile_one i pre post hpre hpost, complex_of_SH_cases h, C15_attr_lenient_other k r hk]
   cases h <;> exact ⟨rfl, rfl, rfl⟩
 
 /-- required attribute with NO value at all (`,` or `)` where a value is expected), either mode, every kind — also the
     four that lenient mode would substitute for a `$`: incomplete, read fails.  `_partial`: shapes as above. -/
-theorem C15_absent_required_incomplete_partial (s : Bool) (k : Kind) (i : InstIn) (pre post : List InstIn)
+theorem C15_absent_required_incomplete_partial (s r : Bool) (k : Kind) (i : InstIn) (pre post : List InstIn)
     (hpre : ∀ x ∈ pre, CleanInst s x) (hpost : ∀ x ∈ post, CleanInst s x)
-    (h : OneMissingSH s ⟨k, false, false⟩ false i) :
+    (h : OneMissingSH s ⟨k, false, false, r⟩ false i) :
     p21readExit (readFile s (pre ++ i :: post)) = 1 ∧ accepted (readFile s (pre ++ i :: post)) = false ∧
     nodeState (readInst s i) = .incomplete := by
   rw [readFile_one i pre post hpre hpost, complex_of_SH_cases h, C15_attr_absent_required]
@@ -385,38 +387,38 @@ theorem C15_complex_nonhead_ignored (s : Bool) (p : List AttrD × List Tok) (ps 
 /-- `#1=(A(5)B($));` with `B.x : ENUMERATION` required, STRICT mode: severity NULL, accepted, complete — the property
     demands incomplete / exit 1 -/
 theorem C15_strict_required_complex_nonhead_witness :
-    let i := InstIn.complex [([⟨.integer, false, false⟩], [Tok.lit (.tok "5") .null]), ([⟨.enum, false, false⟩], [Tok.missing true])]
+    let i := InstIn.complex [([⟨.integer, false, false, false⟩], [Tok.lit (.tok "5") .null]), ([⟨.enum, false, false, false⟩], [Tok.missing true])]
     readFile true [i] = .null ∧ accepted (readFile true [i]) = true ∧ nodeState (readInst true i) = .complete := by
   decide
 
 /-- the same file in lenient mode, and with a substitutable kind: accepted WITHOUT a user message -/
 theorem C15_lenient_complex_nonhead_witness :
-    let i := InstIn.complex [([⟨.integer, false, false⟩], [Tok.lit (.tok "5") .null]), ([⟨.string, false, false⟩], [Tok.missing true])]
+    let i := InstIn.complex [([⟨.integer, false, false, false⟩], [Tok.lit (.tok "5") .null]), ([⟨.string, false, false, false⟩], [Tok.missing true])]
     readFile false [i] = .null := by
   decide
 
 /-- `complex:usermsg-escalated`: `#1=(A($)B(.X.));` with `A.n : INTEGER` required, LENIENT mode: the part substitutes 0 with a
     user message, but the file ends with SEVERITY_WARNING and p21read exits 1 — the property demands accepted -/
 theorem C15_lenient_substitutes_complex_head_witness :
-    let i := InstIn.complex [([⟨.integer, false, false⟩], [Tok.missing true]), ([⟨.enum, false, false⟩], [Tok.lit (.tok ".X.") .null])]
+    let i := InstIn.complex [([⟨.integer, false, false, false⟩], [Tok.missing true]), ([⟨.enum, false, false, false⟩], [Tok.lit (.tok ".X.") .null])]
     (readInst false i).sev = .usermsg ∧ readFile false [i] = .warning ∧ p21readExit (readFile false [i]) = 1 := by
   decide
 
 /-! ### hypotheses are satisfiable -/
 
-example : OneMissingSimple false ⟨.real, false, false⟩ true
-    (.simple ([⟨.integer, false, false⟩] ++ ⟨.real, false, false⟩ :: [⟨.entity, true, false⟩])
+example : OneMissingSimple false ⟨.real, false, false, false⟩ true
+    (.simple ([⟨.integer, false, false, false⟩] ++ ⟨.real, false, false, false⟩ :: [⟨.entity, true, false, false⟩])
              ([Tok.lit (.tok "5") .null] ++ Tok.missing true :: [Tok.missing false])) :=
   .simple (.cons rfl .nil) (.cons rfl .nil)
 
-example : OneMissingSH true ⟨.enum, false, false⟩ false
-    (.complex (([] ++ ⟨.enum, false, false⟩ :: [], [] ++ Tok.missing false :: []) ::
-               [([⟨.integer, false, false⟩], [Tok.lit (.tok "5") .null])])) :=
+example : OneMissingSH true ⟨.enum, false, false, false⟩ false
+    (.complex (([] ++ ⟨.enum, false, false, false⟩ :: [], [] ++ Tok.missing false :: []) ::
+               [([⟨.integer, false, false, false⟩], [Tok.lit (.tok "5") .null])])) :=
   .head (by intro p hp; simp at hp; subst hp; exact .cons rfl .nil) .nil .nil
 
-example : OneMissing false ⟨.logical, true, false⟩ true
-    (.complex ([([⟨.integer, false, false⟩], [Tok.lit (.tok "5") .null])] ++
-               ([] ++ ⟨.logical, true, false⟩ :: [], [] ++ Tok.missing true :: []) :: [])) :=
+example : OneMissing false ⟨.logical, true, false, false⟩ true
+    (.complex ([([⟨.integer, false, false, false⟩], [Tok.lit (.tok "5") .null])] ++
+               ([] ++ ⟨.logical, true, false, false⟩ :: [], [] ++ Tok.missing true :: []) :: [])) :=
   .complex (by intro p hp; simp at hp; subst hp; exact .cons rfl .nil) (by intro p hp; simp at hp) .nil .nil
 
 end StepModel.AttrNull
